@@ -143,6 +143,7 @@ class Analysis:
         f = self.f
         taken = set()
         vars_ = {}
+        self._globals = {}
         for p in f.params:
             vars_[p["id"]] = p["t"]
         for b, i, n in f.walk_all():
@@ -180,9 +181,48 @@ class Analysis:
                         taken.add(a["d"]["id"])
             elif k == "lambda":
                 taken.update(vars_.keys())
+            elif k == "ref" and n["d"].get("dk") in ("global", "slocal") and "id" in n["d"]:
+                self._globals[n["d"]["id"]] = (n["d"].get("n"), n.get("t"))
         self._vars = vars_
         self._taken = taken
         self._tracked = {i for i, t in vars_.items() if i not in taken and is_scalar(f.T(t))}
+        self._gtracked = {i for i, (n, t) in self._globals.items() if i not in taken and is_scalar(f.T(t))}
+        # local counters that start at a constant and are only increased: lower bound = that constant
+        # (assumption: such counters do not overflow)
+        lows = {}
+        bad = set()
+        for b, i, n in f.walk_all():
+            k = n.get("k")
+            if k == "decl":
+                for v in n["vars"]:
+                    if v["id"] in self._tracked and f.T(v["t"]).get("k") == "int":
+                        c = cval(v.get("init")) if v.get("init") is not None else None
+                        if c is None:
+                            bad.add(v["id"])
+                        else:
+                            lows[v["id"]] = min(lows.get(v["id"], c), c)
+            elif k == "bin" and n["op"].endswith("=") and n["op"] not in ("==", "!=", "<=", ">="):
+                l = strip(n["a"], lvalue_to_rvalue=False)
+                if l.get("k") == "ref" and l["d"].get("id") in self._tracked:
+                    vid = l["d"]["id"]
+                    c = cval(n["b"])
+                    if n["op"] == "=" and c is not None:
+                        lows[vid] = min(lows.get(vid, c), c)
+                    elif n["op"] == "+=":
+                        RT = f.T(strip(n["b"]).get("t"))
+                        rb = strip(n["b"], all_casts=True)
+                        nonneg = (c is not None and c >= 0) or (f.T(rb.get("t")).get("k") in ("int", "bool") and not f.T(rb.get("t")).get("signed"))
+                        if not nonneg:
+                            bad.add(vid)
+                    else:
+                        bad.add(vid)
+            elif k == "un" and n.get("op") in ("--",):
+                l = strip(n["e"], lvalue_to_rvalue=False)
+                if l.get("k") == "ref" and "id" in l["d"]:
+                    bad.add(l["d"]["id"])
+        for p in f.params:
+            bad.add(p["id"])
+        self._mono_lo = {i: c for i, c in lows.items() if i not in bad}
         # struct/pointer roots for member paths: any non-escaped variable
         self._roots = {i for i in vars_ if i not in taken}
 
@@ -191,6 +231,13 @@ class Analysis:
         for p in self.f.params:
             if p["id"] in self._tracked:
                 st[("v", p["id"])] = type_range(self.f.T(p["t"]))
+        mono = getattr(self.prog, "monotone", None)
+        for gid in self._gtracked:
+            n, t = self._globals[gid]
+            r = type_range(self.f.T(t))
+            if mono and (self.f.file, n) in mono and r.lo < 0:
+                r = AV(0, r.hi)
+            st[("g", gid)] = r
         return st
 
     # ---- lvalue keys -----------------------------------------------------
@@ -203,6 +250,8 @@ class Analysis:
             d = e["d"]
             if d.get("id") in self._tracked:
                 return ("v", d["id"])
+            if d.get("id") in self._gtracked:
+                return ("g", d["id"])
             return None
         if k == "mem":
             path = []
@@ -225,6 +274,13 @@ class Analysis:
 
     def kill_members(self, st, field=None, root=None):
         for k in list(st):
+            if k[0] == "g" and field is None and root is None:
+                # unknown store / call: globals whose address never escapes their file are handled by ev_call
+                n, t = self._globals[k[1]]
+                if (self.f.file, n) in static_globals(self.prog):
+                    continue
+                st[k] = type_range(self.f.T(t))
+                continue
             if k[0] == "m":
                 if field is not None and not k[2].endswith(field):
                     continue
@@ -275,6 +331,9 @@ class Analysis:
             return AV(c, c)
         if root is not None and e is not root and "sid" in e:
             pure = True
+            cached = st.get(("s", e["sid"]))
+            if cached is not None:
+                return cached
         if k == "lit":
             return self.rng(e["t"])
         if k == "flit":
@@ -291,6 +350,10 @@ class Analysis:
                 return AV(1, (1 << 64) - 1)
             if T.get("k") == "array":
                 return AV(1, (1 << 64) - 1)
+            if d.get("dk") == "global" and T.get("const"):
+                cg = const_globals(self.prog).get((self.f.file, d["n"]))
+                if cg is not None:
+                    return AV(cg, cg)
             return type_range(T)
         if k == "mem":
             if not pure:
@@ -446,6 +509,9 @@ class Analysis:
         r = type_range(T)
         if k in ("int", "enum", "bool", "ptr"):
             if v.nan or v.lo < r.lo or v.hi > r.hi:
+                if k == "int" and T.get("signed") and not v.nan and v.lo <= r.hi and v.hi >= r.lo:
+                    # signed overflow is undefined: defined executions stay inside the type
+                    return AV(max(v.lo, r.lo), min(v.hi, r.hi))
                 return r
         return v
 
@@ -524,6 +590,26 @@ class Analysis:
     def arith(self, op, a, b, T, e=None):
         k = T.get("k")
         nan = a.nan or b.nan
+        if (k in ("int", "enum", "bool") and a.is_const() and b.is_const() and isinstance(a.lo, int) and isinstance(b.lo, int)
+                and op in ("&", "|", "^", "<<", ">>")):
+            x, y = a.lo, b.lo
+            try:
+                if op == "&": r = x & y
+                elif op == "|": r = x | y
+                elif op == "^": r = x ^ y
+                elif op == "<<" and 0 <= y < 128: r = x << y
+                elif op == ">>" and 0 <= y < 128: r = x >> y
+                else: r = None
+            except (ValueError, OverflowError):
+                r = None
+            if r is not None:
+                tr = type_range(T)
+                if r < tr.lo or r > tr.hi:
+                    bits = T.get("bits", (T.get("sz", 4)) * 8)
+                    r &= (1 << bits) - 1
+                    if T.get("signed") and r >= (1 << (bits - 1)):
+                        r -= 1 << bits
+                return AV(r, r)
         if k == "ptr":
             # pointer arithmetic: non-null stays non-null
             if a.lo > 0 or (op == "+" and b.lo > 0 and self.f.T(e["b"].get("t")).get("k") == "ptr"):
@@ -613,6 +699,31 @@ class Analysis:
             vals.append(self.ev(a, st, pure, root))
         if not pure and name not in self.PURE_CALLS:
             self.kill_members(st)
+            gk = [k for k in st if k[0] == "g"]
+            if gk:
+                statics = static_globals(self.prog)
+                cs = self.prog.resolve_call(self.f, e) if e.get("fn") else None
+                if cs:
+                    ce = global_effects(self.prog).get(cs[0].key(), {})
+                elif e.get("fn") and not e["fn"].get("inroot"):
+                    ce = {}          # library function: cannot name a file-static object
+                else:
+                    ce = None        # indirect call: may run any function of this file
+                mono = getattr(self.prog, "monotone", None) or set()
+                for k in gk:
+                    gname, t = self._globals[k[1]]
+                    if (self.f.file, gname) not in statics:
+                        continue
+                    if ce is not None and (self.f.file, gname) not in ce:
+                        continue
+                    w = ce.get((self.f.file, gname)) if ce is not None else None
+                    if w is not None:
+                        st[k] = join(st[k], w)
+                    else:
+                        r = type_range(self.f.T(t))
+                        if (self.f.file, gname) in mono and r.lo < 0:
+                            r = AV(0, r.hi)
+                        st[k] = r
         if name in self.NONNULL_CALLS:
             return AV(1, (1 << 64) - 1)
         if self.summaries is not None and name is not None:
@@ -623,7 +734,12 @@ class Analysis:
 
     def store(self, lhs, key, v, st):
         if key is not None:
-            if key[0] == "v":
+            if key[0] == "g":
+                st[key] = v
+            elif key[0] == "v":
+                lb = self._mono_lo.get(key[1])
+                if lb is not None and v.lo < lb:
+                    v = AV(lb, max(v.hi, lb), v.nan)
                 st[key] = v
                 self.kill_members(st, root=key[1])
             else:
@@ -645,7 +761,7 @@ class Analysis:
         self.kill_members(st)
 
     # ---- refinement ------------------------------------------------------
-    def refine(self, st, c, truth):
+    def refine(self, st, c, truth, _depth=0):
         """state st (mutated, returned) under the assumption that condition c is truth; None if infeasible"""
         if st is None or not isinstance(c, dict):
             return st
@@ -653,6 +769,12 @@ class Analysis:
         cv = cval(c)
         if cv is not None:
             return st if bool(cv) == truth else None
+        if _depth == 0 and self.f.T(c.get("t")).get("k") != "float":
+            v0 = self.ev(c, st, True)
+            if truth and v0.lo == 0 and v0.hi == 0 and not v0.nan:
+                return None
+            if not truth and not v0.contains(0) and not v0.nan:
+                return None
         if k == "cast":
             ck = c.get("ck")
             if ck in ("IntegralToBoolean", "PointerToBoolean", "LValueToRValue", "NoOp", "FloatingToBoolean"):
@@ -904,7 +1026,9 @@ class Analysis:
             alive = True
             for i, el in enumerate(b.el):
                 self.pre[(bid, i)] = dict(st)
-                self.ev(el, st, False, el)
+                v = self.ev(el, st, False, el)
+                if "sid" in el and isinstance(v, AV):
+                    st[("s", el["sid"])] = v
                 if self.hook:
                     self.hook(self, b, i, el, st)
             # successors
@@ -920,8 +1044,19 @@ class Analysis:
                     if cls == "SwitchStmt":
                         sb = f.blocks[s]
                         lab = sb.label
+                        cv = self.ev(cond, dict(out), True, cond)
                         if lab and lab.get("k") == "case" and "lo" in lab:
-                            out = self.narrow_expr(out, cond, lab["lo"], lab.get("hi", lab["lo"]))
+                            if cv.hi < lab["lo"] or cv.lo > lab.get("hi", lab["lo"]):
+                                out = None
+                            else:
+                                out = self.narrow_expr(out, cond, lab["lo"], lab.get("hi", lab["lo"]))
+                        elif cv.is_const():
+                            # default / fall-out edge: infeasible when a case label matches the constant
+                            for s2 in b.succ:
+                                l2 = f.blocks[s2].label if s2 is not None else None
+                                if l2 and l2.get("k") == "case" and "lo" in l2 and l2["lo"] <= cv.lo <= l2.get("hi", l2["lo"]):
+                                    out = None
+                                    break
                     elif nsucc == 2 and cls in ("IfStmt", "WhileStmt", "ForStmt", "DoStmt", "ConditionalOperator", "BinaryOperator", "BinaryConditionalOperator"):
                         truth = (si == 0)
                         if cls == "BinaryOperator" and term.get("op") == "||":
@@ -954,16 +1089,41 @@ class Analysis:
                     continue
                 j = join(va, vb)
                 if widen:
-                    lo = va.lo if j.lo >= va.lo else -INF
-                    hi = va.hi if j.hi <= va.hi else INF
+                    th = self.thresholds()
+                    lo = va.lo if j.lo >= va.lo else max([t for t in th if t <= j.lo], default=-INF)
+                    hi = va.hi if j.hi <= va.hi else min([t for t in th if t >= j.hi], default=INF)
                     # widen to the type bound when known
-                    if k[0] == "v":
-                        tr = type_range(self.f.T(self._vars.get(k[1])))
+                    if k[0] in ("v", "g"):
+                        tr = type_range(self.f.T(self._vars.get(k[1]) if k[0] == "v" else self._globals[k[1]][1]))
                         lo = max(lo, tr.lo) if lo == -INF else lo
                         hi = min(hi, tr.hi) if hi == INF else hi
                     j = AV(lo, hi, j.nan)
                 r[k] = j
         return r
+
+    def thresholds(self):
+        """widening thresholds: the integer constants that occur in the function (and their neighbours), 0, +-1"""
+        th = getattr(self, "_th", None)
+        if th is None:
+            th = {0, 1, -1}
+            for b, i, n in self.f.walk_all():
+                c = cval(n)
+                if c is not None and abs(c) < (1 << 62):
+                    th.update((c - 1, c, c + 1))
+            cg = const_globals(self.prog)
+            for gid, (n, t) in self._globals.items():
+                v = cg.get((self.f.file, n))
+                if v is not None:
+                    th.update((v - 1, v, v + 1))
+            self._th = th = sorted(th)
+        return th
+
+    def val(self, bid, idx, e):
+        """value of sub-expression e of CFG element (bid, idx); nested CFG elements use their recorded values"""
+        st = self.pre.get((bid, idx))
+        if st is None:
+            return None
+        return self.ev(e, dict(st), True, self.f.blocks[bid].el[idx])
 
     # ---- queries ---------------------------------------------------------
     def value_at(self, bid, idx, e):
@@ -979,3 +1139,168 @@ class Analysis:
 def _cdiv(a, b):
     q = abs(a) // abs(b)
     return q if (a >= 0) == (b >= 0) else -q
+
+
+class Summaries:
+    """return-value summaries by abstract evaluation of the callee with the caller's argument intervals"""
+
+    def __init__(self, prog, max_blocks=80, max_depth=3):
+        self.prog = prog
+        self.memo = {}
+        self.depth = 0
+        self.max_blocks = max_blocks
+        self.max_depth = max_depth
+
+    def __call__(self, f, call, argvals):
+        cs = self.prog.resolve_call(f, call)
+        if not cs:
+            return None
+        g = cs[0]
+        if g.nocfg or len(g.blocks) > self.max_blocks or len(g.params) != len(argvals):
+            return None
+        key = (g.key(), tuple((a.lo, a.hi, a.nan) for a in argvals))
+        if key in self.memo:
+            return self.memo[key]
+        if self.depth >= self.max_depth:
+            return None
+        self.memo[key] = None      # recursion guard
+        self.depth += 1
+        try:
+            an = Analysis(self.prog, g, summaries=self)
+            st = an.entry_state()
+            for p, v in zip(g.params, argvals):
+                if p["id"] in an._tracked:
+                    st[("v", p["id"])] = an.convert(v, g.T(p["t"]))
+            an.run(state=st)
+            r = None
+            for (bid, idx), pre in an.pre.items():
+                el = g.blocks[bid].el[idx]
+                if el.get("k") == "ret" and el.get("e") is not None:
+                    r = join(r, an.ev(el["e"], dict(pre), True))
+        finally:
+            self.depth -= 1
+        self.memo[key] = r
+        return r
+
+
+def monotone_counters(prog):
+    """file-static integer counters that are only zeroed, incremented or added a non-negative constant"""
+    cand = {}
+    for u, g in prog.globals:
+        T = u.types[g["t"]]
+        if g.get("static") and T.get("k") == "int":
+            iv = cval(g.get("init"))
+            if iv is None or iv >= 0:
+                cand[(g["file"], g["n"])] = True
+    for f in prog.functions.values():
+        if f.nocfg:
+            continue
+        for b, i, n in f.walk_all():
+            k = n.get("k")
+            tgt = None
+            ok = True
+            if k == "bin" and n["op"].endswith("=") and n["op"] not in ("==", "!=", "<=", ">="):
+                l = strip(n["a"], lvalue_to_rvalue=False)
+                if l.get("k") == "ref" and l["d"].get("dk") == "global":
+                    tgt = l["d"]["n"]
+                    c = cval(n["b"])
+                    ok = (n["op"] in ("=", "+=") and c is not None and c >= 0)
+            elif k == "un" and n.get("op") in ("++", "--", "&"):
+                l = strip(n["e"], lvalue_to_rvalue=False)
+                if l.get("k") == "ref" and l["d"].get("dk") == "global":
+                    tgt = l["d"]["n"]
+                    ok = n["op"] == "++"
+            if tgt is not None and not ok:
+                cand.pop((f.file, tgt), None)
+    return set(cand)
+
+
+def const_globals(prog):
+    cg = getattr(prog, "_const_globals", None)
+    if cg is None:
+        cg = {}
+        for u, g in prog.globals:
+            T = u.types[g["t"]]
+            if T.get("const") and T.get("k") in ("int", "enum", "bool"):
+                v = cval(g.get("init"))
+                if v is not None:
+                    cg[(g["file"], g["n"])] = v
+        prog._const_globals = cg
+    return cg
+
+
+def static_globals(prog):
+    sg = getattr(prog, "_static_globals", None)
+    if sg is None:
+        sg = set()
+        escaped = set()
+        for u, g in prog.globals:
+            if g.get("static") and not g.get("slocal"):
+                sg.add((g["file"], g["n"]))
+        for f in prog.functions.values():
+            if f.nocfg:
+                continue
+            for b, i, n in f.walk_all():
+                if n.get("k") == "un" and n.get("op") == "&":
+                    x = strip(n["e"], lvalue_to_rvalue=False)
+                    if x.get("k") == "ref" and x["d"].get("dk") == "global":
+                        escaped.add((f.file, x["d"]["n"]))
+        sg -= escaped
+        prog._static_globals = sg
+    return sg
+
+
+def global_effects(prog):
+    """function key -> {(file, static global): joined constant value stored, or None when unknown}; transitive over resolved calls"""
+    ge = getattr(prog, "_global_effects", None)
+    if ge is not None:
+        return ge
+    direct = {}
+    calls = {}
+    for key, f in prog.functions.items():
+        d = {}
+        cs = set()
+        if not f.nocfg:
+            for b, i, n in f.walk_all():
+                k = n.get("k")
+                tgt = None
+                val = None
+                if k == "bin" and n["op"].endswith("=") and n["op"] not in ("==", "!=", "<=", ">="):
+                    l = strip(n["a"], lvalue_to_rvalue=False)
+                    if l.get("k") == "ref" and l["d"].get("dk") == "global":
+                        tgt = l["d"]["n"]
+                        c = cval(n["b"])
+                        val = AV(c, c) if (n["op"] == "=" and c is not None) else None
+                elif k == "un" and n.get("op") in ("++", "--"):
+                    l = strip(n["e"], lvalue_to_rvalue=False)
+                    if l.get("k") == "ref" and l["d"].get("dk") == "global":
+                        tgt = l["d"]["n"]
+                elif k == "call" and n.get("fn"):
+                    for c in prog.resolve_call(f, n):
+                        cs.add(c.key())
+                if tgt is not None:
+                    gk = (f.file, tgt)
+                    if gk in d:
+                        d[gk] = join(d[gk], val) if (d[gk] is not None and val is not None) else None
+                    else:
+                        d[gk] = val
+        direct[key] = d
+        calls[key] = cs
+    ge = {k: dict(v) for k, v in direct.items()}
+    changed = True
+    while changed:
+        changed = False
+        for k in ge:
+            for c in calls[k]:
+                for gk, v in ge.get(c, {}).items():
+                    if gk not in ge[k]:
+                        ge[k][gk] = v
+                        changed = True
+                    else:
+                        old = ge[k][gk]
+                        new = join(old, v) if (old is not None and v is not None) else None
+                        if new != old:
+                            ge[k][gk] = new
+                            changed = True
+    prog._global_effects = ge
+    return ge
